@@ -225,7 +225,11 @@ Values(p) ==
        UNION { IF Has(vs[i].attrs, "skip") THEN {} ELSE { <<i, k>> : k \in 1..NVals(vs[i].fields) } : i \in DOMAIN vs }
 Ser(p, val) == IF p.kind = "struct" THEN SerStruct(p, val[2]) ELSE SerVariant(p, val[1], AllVariants(p)[val[1]], val[2])
 
-Env(p) == [n \in DOMAIN DCfg.env \cup {DeclName(p)} |-> IF n = DeclName(p) THEN [params |-> <<>>, body |-> Bind(p)] ELSE DCfg.env[n]]
+\* a generic program `P<T>` is declared once, with its parameter; what a value of the instantiation P<A> has to
+\* inhabit is the reference P<name of A> (TS::name()), resolved through that declaration
+Params(p) == IF p.garg = "" THEN <<>> ELSE <<"T">>
+Root(p) == IF p.garg = "" THEN Bind(p) ELSE [k |-> "ref", n |-> DeclName(p), as |-> <<TI(p.garg).name>>]
+Env(p) == [n \in DOMAIN DCfg.env \cup {DeclName(p)} |-> IF n = DeclName(p) THEN [params |-> Params(p), body |-> Bind(p)] ELSE DCfg.env[n]]
 
-C01_Model(p) == \A val \in Values(p) : LET j == Ser(p, val) IN IsSerErr(j) \/ Inhabits(j, Bind(p), Env(p))
+C01_Model(p) == \A val \in Values(p) : LET j == Ser(p, val) IN IsSerErr(j) \/ Inhabits(j, Root(p), Env(p))
 =============================================================================
